@@ -411,7 +411,8 @@ def layout_tu(decls):
         e = Emit(i, t)
         out += e.defs
         tn = e.top
-        body = ['static union { %s v; unsigned char raw[sizeof (%s)]; } w%d;' % (tn, tn, i),
+        body = ['%s gobj%d;   /* its bss size is read from c2m -S */' % (tn, i),
+                'static union { %s v; unsigned char raw[sizeof (%s)]; } w%d;' % (tn, tn, i),
                 '#define v%d w%d.v' % (i, i),
                 'static void probe%d (void) {' % i,
                 '  unsigned char *b = (unsigned char *) &v%d;' % i,
